@@ -54,7 +54,11 @@ class _TzdbStreamField:
             field_id = stream.read(1)
             if not field_id:
                 break
-            id_ = _TzdbStreamFieldId(field_id[0])
+            try:
+                id_ = _TzdbStreamFieldId(field_id[0])
+            except ValueError:
+                # Unknown fields are ignored by the caller, for forward compatibility.
+                id_ = field_id[0]  # type: ignore[assignment]
             # Read 7-bit encoded length
             length = _DateTimeZoneReader._ctor(stream, None).read_count()
             data = bytearray()
